@@ -308,11 +308,25 @@ async def seeder(w, p, reader, writer, we_connect):
             await send(w, writer, noise_frames(rnd, noise) + struct.pack(">IB", 1, 1), chunk)
         served = 0
         choked_once = False
+        # what the client sends is read (and time-stamped) as it arrives, also while this peer is
+        # busy "thinking" about an answer
+        inbox = asyncio.Queue()
+
+        async def pump():
+            try:
+                while True:
+                    m = await read_msg(reader)
+                    await inbox.put((time.time(), m[0], m[1]))
+            except Exception as ex:  # noqa
+                await inbox.put((time.time(), "EOF", ex))
+        pump_task = asyncio.create_task(pump())
         while True:
-            mid, body = await asyncio.wait_for(read_msg(reader), max(60, p.get("latency_ms", 0) / 1000 * 3 + 200))
+            t_arr, mid, body = await asyncio.wait_for(inbox.get(), max(60, p.get("latency_ms", 0) / 1000 * 3 + 200))
+            if mid == "EOF":
+                raise body
             w.last_activity = time.time()
             if mid is None:
-                life["keepalives_at_s"].append(round(time.time() - life["t0"], 1))
+                life["keepalives_at_s"].append(round(t_arr - life["t0"], 1))
                 continue
             if mid == 6:
                 idx, beg, ln = struct.unpack(">III", body)
@@ -355,6 +369,8 @@ async def seeder(w, p, reader, writer, we_connect):
     except asyncio.TimeoutError:
         pass
     finally:
+        if "pump_task" in locals():
+            pump_task.cancel()
         life["lived_s"] = round(time.time() - life["t0"], 1)
         try:
             writer.close()
